@@ -125,7 +125,7 @@ package builtin
 
 //@ func Decide(atom, subst)
 //@   opt allowpanic
-//@   requires atom.Predicate.Symbol == symbols.ListMember.Symbol ==> len(atom.Args) == 2
+//@   requires atom.Predicate.Symbol == symbols.ListMember.Symbol ==> len(atom.Args) == 2 && subst != nil
 //@   ensures atom.Predicate.Symbol == symbols.WithinDistance.Symbol && len(atom.Args) == 3 && allC(atom.Args, 3, ast.NumberType)
 //@             ==> err == nil && ret0 == (valOf(atom.Args[0]) - valOf(atom.Args[1]) < valOf(atom.Args[2]) && valOf(atom.Args[1]) - valOf(atom.Args[0]) < valOf(atom.Args[2]))
 //@   ensures cmp2(atom, symbols.Lt.Symbol, ast.NumberType) ==> err == nil && ret0 == (arg0(atom) < arg1(atom))
